@@ -41,9 +41,9 @@ RefusedFamilies == {"fanout", "fanoutops", "deepinline"}
 RefusedCheap ==
   \A f \in RefusedFamilies, l \in RecLimits :
      LET cfg == CfgOf(l, 1000) C == FC(f) IN
-     n > EffL(cfg) + 1 => /\ WithinBound(Visits_asCodedFastAt(C, cfg), PolyBound(C))
-                          /\ Visits_asCodedFastAt(C, cfg)[1] = 0                 \* refused before validation
-                          /\ ~TriggerNoMemoAt(C, cfg)
+     n > EffL(cfg) => /\ WithinBound(Visits_asCodedFastAt(C, cfg), PolyBound(C))
+                       /\ Visits_asCodedFastAt(C, cfg)[1] = 0                 \* refused before validation
+                       /\ ~TriggerNoMemoAt(C, cfg)
 DirRefusedCheap ==
   \A f \in {"dirfirst", "dirlast"} : n <= 11 =>
      LET cfg == CfgOf(-1, 1) C == FC(f) IN Visits_asCodedFastAt(C, cfg)[1] = 0 /\ Visits_asCodedFastAt(C, cfg)[4] <= n + 2
